@@ -294,6 +294,18 @@ func (w *sworld) atQuiescence() {
 					}
 					wantSvc[s][p.Name] = true
 				}
+				if env.On("C10") && has && selects && (len(got) == 0) != (len(wl) == 0) {
+					// eligibility as the peer sees it: the node offers the peer something iff some
+					// service is eligible on it for an advertisement that names the peer
+					sig := ""
+					for i := range st.Services {
+						key := st.Services[i].Namespace + "/" + st.Services[i].Name
+						if at, ok := w.spk[n].svcProcessedAt[key]; ok && at < w.spk[n].firstSights {
+							sig = "C04/node-first-sight-not-reprocessed"
+						}
+					}
+					w.violate("C10", "bgp-eligibility-on-the-session", sig, fmt.Sprintf("node %s peer %s: offered %v although the eligible services produce %v", n, p.Name, got, wl))
+				}
 				if env.On("C05") || env.On("C09") {
 					prop := "C05"
 					if !env.On("C05") {
